@@ -26,6 +26,8 @@
 (*            were made from (queue, tx_pointer row)                       *)
 (*   fin[k]   contents of the keys messages of the current slot keyper k   *)
 (*            accepted from the network or released itself                 *)
+(*   ann[k]   contents of keys messages keyper k only ANNOUNCED again: made *)
+(*            of keys it held already (gnosis key share handler)           *)
 (*   an       contents of keys messages the access node accepted (slot)    *)
 (*   lost[k]  share messages lost on the way to keyper k in the slot       *)
 (*   rst      keypers restarted in the slot                                *)
@@ -52,12 +54,17 @@
 (*     keys message: nothing skipped, nothing released twice, unless the   *)
 (*     documented age fallback applies), C19_PointerArith after every      *)
 (*     processed (accepted or self-released) keys message                  *)
+(*     (C15 carried over the first border: after every call of the syncer  *)
+(*     whose position is a canonical block, the keyper's queue is exactly  *)
+(*     the canonical chain's transactions up to it: C15_Exact)             *)
 (* X4  at the end of a slot: if at least T keypers requested the same      *)
 (*     content c and still hold it as their current trigger, nobody        *)
 (*     restarted and nobody lost more than |W| - T share messages, then    *)
-(*     every keyper holds the keys of all identities of c, has accepted or *)
-(*     released a keys message with content c, its pointer is p+k-1, and   *)
-(*     the access node accepted one (X4_AllRelease); the key judgement     *)
+(*     every keyper holds the keys of all identities of c, has accepted,   *)
+(*     released or announced a keys message with content c, its pointer is *)
+(*     p+k-1 (except finding GNO-1: a keyper that only announced keys it   *)
+(*     held already), and the access node accepted one (X4_AllRelease);    *)
+(*     the key judgement                                                   *)
 (*     (byte equality across keypers, trial decryption of a ciphertext     *)
 (*     made for the eon key) is X4_SameKey / X4_Decrypt on the final line  *)
 (***************************************************************************)
@@ -69,6 +76,7 @@ GW0 == [gh   |-> [k \in KSeq |-> GhostInit],
         req  |-> [k \in KSeq |-> {}],
         recs |-> {},
         fin  |-> [k \in KSeq |-> {}],
+        ann  |-> [k \in KSeq |-> {}],
         an   |-> {},
         lost |-> [k \in KSeq |-> 0],
         rst  |-> {},
@@ -88,6 +96,10 @@ AcceptedKeys(a, o, prod) ==
    comes from the gnosis key share handler on the raw messaging and moves nothing *)
 Released(w0, k, prod) ==
     {prod[i].m : i \in {j \in DOMAIN prod : prod[j].m.t = "keys" /\ ~(IdsOf(prod[j].m.c) \subseteq w0.kp[k].ky)}}
+
+(* contents keyper k announced in this step with keys it held already *)
+Announced(w0, k, prod) ==
+    {prod[i].m.c : i \in {j \in DOMAIN prod : prod[j].m.t = "keys" /\ IdsOf(prod[j].m.c) \subseteq w0.kp[k].ky}}
 
 (* the processed keys message of the step for keyper k (C19: "after a keys message releasing k
    identities at pointer p is processed"): set of contents (0 or 1 in every observed step) *)
@@ -116,7 +128,8 @@ TagsOf(g0, g1, w0, a, o, prod, w1) ==
       [] a.a = "dlv" /\ a.m.t = "shares" ->
            (IF o.verdict # "accept" THEN {"shares-" \o o.verdict} ELSE {}) \cup
            (IF Released(w0, k, prod) # {} THEN {"released"} ELSE {}) \cup
-           (IF \E i \in DOMAIN prod : prod[i].m.t = "keys" /\ IdsOf(prod[i].m.c) \subseteq w0.kp[k].ky THEN {"keys-again"} ELSE {}) \cup
+           (IF Announced(w0, k, prod) # {} THEN {"keys-again"} ELSE {}) \cup
+           (IF \E c \in Announced(w0, k, prod) : RowOf(w1, k).value # c.p + Len(c.ids) - 1 THEN {"announced-unadvanced"} ELSE {}) \cup
            (IF prod = <<>> /\ w1.kp[k].ky # w0.kp[k].ky THEN {"derived-dropped"} ELSE {}) \cup
            (IF a.m.c # CurContent(w0.kp[k]) /\ CurOf(w0.kp[k]).row /\ CurOf(w0.kp[k]).slot = a.m.c.slot THEN {"foreign-list"} ELSE {})
       [] a.a = "dlv" /\ a.m.t = "keys" ->
@@ -143,11 +156,12 @@ GhostNextE(g, w0, a, o, prod, w1, hash) ==
                      [g EXCEPT !.gh[k] = IF pr = {} THEN @
                                          ELSE LET c == CHOOSE x \in pr : TRUE IN GhostKeys(@, TheEon, c.p, Len(c.ids)),
                                !.fin[k] = @ \cup {c \in pr : c.slot = w0.slot},
+                               !.ann[k] = @ \cup {c \in Announced(w0, k, prod) : c.slot = w0.slot},
                                !.an = @ \cup {c \in acc : c.slot = w0.slot}]
                 [] a.a = "drop" -> [g EXCEPT !.lost[k] = @ + 1]
                 [] a.a = "restart" -> [g EXCEPT !.gh[k] = GhostRestart(@), !.rst = @ \cup {k}]
                 [] a.a = "slot" ->
-                     [g EXCEPT !.req = [x \in KSeq |-> {}], !.recs = {}, !.fin = [x \in KSeq |-> {}], !.an = {},
+                     [g EXCEPT !.req = [x \in KSeq |-> {}], !.recs = {}, !.fin = [x \in KSeq |-> {}], !.ann = [x \in KSeq |-> {}], !.an = {},
                                !.lost = [x \in KSeq |-> 0], !.rst = {}, !.tags = {}]
                 [] OTHER -> g
         tg == TagsOf(g, g1, w0, a, o, prod, w1)
@@ -175,6 +189,7 @@ StepViol(g0, g1, w0, a, o, prod, w1) ==
           (IF CurOf(w1.kp[k]).row /\ CurOf(w1.kp[k]).slot = w0.slot /\ CurOf(w1.kp[k]).ids = o.r.trig.ids THEN {} ELSE {"X1_TriggerStored"})
      ELSE {}) \cup
     UNION {KeysFailed(RowOf(w1, k), c.p, Len(c.ids)) : c \in Processed(w0, a, o, prod)} \cup
+    (IF a.a = "sync" /\ ~CS!C15_Exact(w1.ch.blk, w1.ch.head, 0, w1.kp[k].sy) THEN {"C15_Exact"} ELSE {}) \cup
     (IF a.a = "tick" /\ o.r.out \in {"panic", "hang"} THEN {"X_NoPanic"} ELSE {})
 
 ----------------------------------------------------------------------------
@@ -189,15 +204,26 @@ X4_Premise(g, w, c) ==
     /\ g.rst = {}
     /\ \A k \in KSeq : g.lost[k] <= n - T
 
+(* GNO-1 (the code as found): a keyper that only ANNOUNCED the keys of c (gnosis key share
+   handler: it held all of them before it had a threshold of signatures) and neither accepted nor
+   released a keys message of c has not moved its own tx pointer *)
+AnnouncedOnly(g, k, c) == c \in g.ann[k] /\ c \notin g.fin[k]
+Advanced(w, k, c) == RowOf(w, k).row /\ RowOf(w, k).value = c.p + Len(c.ids) - 1
+
 X4_Conclusion(g, w, c) ==
     /\ c \in g.an
     /\ \A k \in KSeq :
          /\ IdsOf(c) \subseteq w.kp[k].ky
-         /\ c \in g.fin[k]
-         /\ RowOf(w, k).row /\ RowOf(w, k).value = c.p + Len(c.ids) - 1
+         /\ c \in g.fin[k] \/ c \in g.ann[k]
+         /\ Advanced(w, k, c) \/ AnnouncedOnly(g, k, c)
 
 EndViol(g, w) ==
     IF \A c \in SlotContents(g) : X4_Premise(g, w, c) => X4_Conclusion(g, w, c) THEN {} ELSE {"X4_AllRelease"}
+
+(* observations (not verdicts of C19): where the exception above was needed *)
+EndObsv(g, w) ==
+    IF \E c \in SlotContents(g) : X4_Premise(g, w, c) /\ \E k \in KSeq : AnnouncedOnly(g, k, c) /\ ~Advanced(w, k, c)
+    THEN {"GNO1_AnnouncerPointerNotAdvanced"} ELSE {}
 
 (* the final key judgement: judge = sequence of [id, per |-> sequence over keypers of [has, fp, dec]] *)
 JudgeViol(judge) ==
